@@ -229,8 +229,21 @@ def run(ctx):
                 if ops_ and ops_[0].startswith('Equal('):
                     eqs.append(ops_)
     ctx.require(eqs, 'try_convert_in_to_join: Equal node not found')
+    def builds_qualified_ref(fn_name):
+        """a function of the crate (closures and callees included) that constructs Expression::ColumnRef with table = Some(..)"""
+        for g2 in prog.fns.values():
+            if g2.unit == 'vibesql_executor' and (g2.nice.endswith('::' + fn_name) or ('::' + fn_name + '::') in g2.nice):
+                sy2 = Sym(g2)
+                for b2 in g2.blocks:
+                    for st2 in b2['s']:
+                        if 'd' in st2 and st2['v']['r'] == 'agg' and str(st2['v'].get('adt', '')).endswith('::Expression') and st2['v'].get('variant') == 'ColumnRef':
+                            if sy2.op(st2['v']['ops'][0]).startswith('Some('):
+                                return True
+        return False
     for ops_ in eqs:
-        outer_ok = 'ColumnRef(Some(' in ops_[1] and 'from@Table' in ops_[1]
+        outer_ok = 'from@Table' in ops_[1] and ('ColumnRef(Some(' in ops_[1] or
+                                                any(builds_qualified_ref(nm) for nm in re.findall(r'([a-z_][a-z_0-9]*)\(', ops_[1])
+                                                    if nm not in ('new', 'phi', 'branch', 'unwrap_or', 'unwrap_or_else', 'clone')))
         inner_ok = 'ColumnRef(Some(' in ops_[2] and 'subquery.from' in ops_[2]
         ctx.instance('R6/try_convert_in_to_join', {'rule': 'C05.R6', 'outer_operand_qualified': outer_ok, 'inner_operand_qualified': inner_ok})
         if not (outer_ok and inner_ok):
